@@ -31,7 +31,14 @@ PROPS_FILE = 'theories/Props/C15.v'
 PROPS_MODULE = 'Props.C15'
 COQ_TARGETS = ['theories/Extract/ExtractC15.vo']
 REQUIRED_THEOREMS = ['C15_process_is_resolver', 'C15_schedule_indep', 'C15_all_answered', 'C15_cold_cache', 'C15_no_deadlock',
-                     'C15_custom_values']
+                     'C15_custom_values',
+                     'C15_fine_grained_mutex',
+                     'C15_fine_grained_reduces_to_atomic',
+                     'C15_fine_grained_access_is_atomic_step',
+                     'C15_fine_grained_realizes_atomic',
+                     'C15_fine_grained_schedule_independent',
+                     'C15_fine_grained_cold_cache',
+                     'C15_fine_grained_no_deadlock']
 MODEL = 'c15'
 HARNESS_BINS = ['concurrent_run', 'syn_run']
 RELEASE_TOO = False
@@ -41,7 +48,10 @@ PARTIAL = ('The theorems are complete for the model. The model\'s granularity is
            'concurrent.rs -> intl-memoizer concurrent.rs with_try_get: lock, lookup, construct if absent, insert, callback `pr.select(n) == cat`, '
            'unlock) = ONE atomic step on the shared memoizer; everything a format_pattern call does between two such steps is private to the '
            'call (Scope, error vector, output are owned by the call; entries/transform/formatter/args are immutable while the bundle is shared). '
-           'That is read off the code, as for C14, not derived. Interleavings INSIDE a critical section, the semantics of std::sync::Mutex '
+           'As for C14 this granularity is now DERIVED: Bundle/ConcurrentBundleFine.v runs every memoizer access as the seven micro-steps of '
+           'Memo/FineGrained.v under an explicit mutex; mutual exclusion, reduction of every fine schedule to an atomic one, schedule '
+           'independence (= the single-threaded answer, cold cache included) and no deadlock are proved for all fine schedules '
+           '(C15_fine_grained_*). What stays a reading of the code is the order of the micro-steps and that the rest of a call is private. Beyond that, the semantics of std::sync::Mutex '
            '(mutual exclusion, poisoning — the poison flag is modelled, and shown unreachable for f64 values), and a user callback that '
            're-enters the bundle\'s memoizer or panics (custom FluentType::as_string_threadsafe, value formatter, registered function: pure '
            'total Section variables in the model) are outside the Gallina model. Support, not proof: real threads (2/4/8, cold cache, varied '
